@@ -1,4 +1,9 @@
+import json
+import os
+
 from runner import H
+
+_PREFIXES = json.load(open(os.path.join(os.path.dirname(os.path.dirname(os.path.abspath(__file__))), "harness", "parser", "lexer_prefix.json")))
 
 F_CLS = ["apollo_parser::lexer::lookup::punctuation_kind", "lookup::is_namestart", "lexer::is_whitespace_assimilated",
          "lexer::is_name_continue", "lexer::is_line_terminator", "lexer::is_escaped_char"]
@@ -11,10 +16,11 @@ SPEC = {
     "package": "apollo-parser",
     "inject": [("apollo-parser", "src/lexer/mod.rs", "parser/lexer.rs", "verif_lexer"),
                ("apollo-parser", "src/lexer/cursor.rs", "parser/cursor_access.rs", "pub(crate) verif_cursor")],
+    "support": ["parser/ref_lexer.rs", "parser/lexer_prefix.rs"],
     "unsafe_checks": False,
     "cursor_access": True,
     "timeout": {"quick": 900, "thorough": 3000},
-    "jobs": 8,
+    "jobs": 6,
     "exhaustive": False,
     "harnesses": [
         H("c03_char_classes", functions=F_CLS, domain="every Unicode scalar value (0..=0x10FFFF minus surrogates)", bound="full domain, no loop"),
@@ -24,14 +30,22 @@ SPEC = {
         H("c03_first_item_4byte", functions=F_LEX, heavy=True, domain="every 4-byte character (U+10000..U+10FFFF) x every token limit", bound="input = 1 character"),
         H("c03_after_last_char", functions=F_LEX, heavy=True, domain="every lexer state with nothing pending and an exhausted character iterator (index, offset, limit tracker arbitrary) over every one-character source", bound="compositional step (B)"),
         H("c03_empty_input_all_limits", functions=F_LEX, heavy=True, domain="the empty input x every token limit", bound="input = 0 bytes"),
+    ] + [
+        H(name, sub="prefix", functions=F_LEX, tiers=("quick", "thorough") if [name, pre] in _PREFIXES["quick"] else ("thorough",), heavy=True, timeout=3000,
+          domain="lexer vs reference lexer (maximal munch, lookahead restrictions, string/escape/block-string rules) on %r ++ [b], b = every ASCII SourceCharacter (solver)" % pre,
+          bound="input = %d concrete bytes + 1 symbolic byte" % len(pre.encode())) for name, pre in _PREFIXES["thorough"]
+    ] + [
         H("c03_twin_must_fail", functions=F_LEX, expect="twin", heavy=True, domain="vacuity twin", bound="-"),
     ],
     "stubs": ["alloc::fmt::format -> empty String (error messages are not the subject; error data and indices stay real)"],
     "assumptions": [
         "reference = the October 2021 lexical grammar's character classes and, for a one-character input, the token/error the grammar "
-        "assigns to that character followed by EOF (harness/parser/lexer.rs)",
-        "inputs of at most ONE character: every further symbolic byte costs ~10 min of CBMC (584 s measured for 2 ASCII bytes), "
-        "so escapes, block strings, exponents, `...` and every other multi-character token are OUTSIDE this check",
+        "assigns to that character followed by EOF (harness/parser/lexer.rs); for the prefix harnesses a reference lexer "
+        "(harness/parser/ref_lexer.rs: maximal munch, number lookahead, escapes, \\uXXXX with the documented surrogate rejection, block strings), "
+        "itself validated natively by tools/refcheck against the real lexer on 7.4 M short ASCII inputs and the repository's lexer corpus",
+        "prefix harnesses: the prefix is concrete (enumerated list), the last byte ranges over every ASCII SourceCharacter (tab, LF, CR, 0x20..0x7E); "
+        "other control characters are outside the compared domain",
+        "symbolic dimension: ONE character (any scalar value), or ONE last ASCII byte after a concrete prefix; every further symbolic byte costs ~10 min of CBMC",
     ],
-    "outside": ["all inputs of two or more characters: maximal munch, number lookahead, string escapes, block strings, comments with content, spread"],
+    "outside": ["inputs that are neither a single character nor a listed prefix + one ASCII byte; in particular a non-ASCII second character and three or more free characters"],
 }
